@@ -105,6 +105,58 @@ def wide_worker(arg):
         r["bad"] = {"kind": "wide", "case": [n, signed, mode], "diff": diff[:4]}
     return r
 
+@core.safe
+def float_worker(arg):
+    """IEEE-754 conversion is not decided by the specification (floats are opaque there); this is a SAMPLED list: placement,
+    byte order and the cast-mode rules of the statement (saturated: clamp to the largest finite value; truncated: overflow to
+    infinity; NaN and infinities pass) are compared with struct.pack."""
+    import math, struct
+    import pydsdl
+    n, mode = arg
+    from .. import dsdlio
+    fmt = {16: "<e", 32: "<f", 64: "<d"}[n]
+    ufmt = {16: "<H", 32: "<I", 64: "<Q"}[n]
+    maxf = {16: 65504.0, 32: 3.4028234663852886e38, 64: 1.7976931348623157e308}[n]
+    tiny = {16: 5.960464477539063e-08, 32: 1e-45, 64: 5e-324}[n]
+    diff = []
+    ty = ("truncated " if mode == "t" else "") + "float%d" % n
+    with dsdlio.Tree({"ns/X.1.0.dsdl": "uint3 a\n%s x\nbool b\n@sealed\n" % ty}, "c06f") as tr:
+        status, res, _ = dsdlio.read_ns(tr.path("ns"))
+        X = res[0]
+    values = [0.0, -0.0, 1.0, -2.5, maxf, -maxf, tiny, -tiny, float("inf"), float("-inf"), float("nan"), 1e-300, 0.1, 1 / 3]
+    if n < 64:
+        values += [maxf * 2, -maxf * 2, maxf * 1.0001, 1e300]
+    values += [10 ** 400, -(10 ** 400), 3, True]
+    for v in values:
+        try:
+            fv = float(v)
+        except OverflowError:
+            fv = math.inf if v > 0 else -math.inf
+        huge_int = isinstance(v, int) and not isinstance(v, bool) and abs(v) > 10 ** 308
+        if mode == "s" and (huge_int or not (math.isnan(fv) or math.isinf(fv))):
+            fv = max(-maxf, min(maxf, fv))      # saturated: finite values (and integers too large for a float) clamp to the largest finite value
+        try:
+            pat = struct.unpack(ufmt, struct.pack(fmt, fv))[0]
+        except OverflowError:
+            pat = struct.unpack(ufmt, struct.pack(fmt, math.copysign(math.inf, fv)))[0]
+        word = 5 | (pat << 3) | (1 << (3 + n))
+        exp = word.to_bytes((3 + n + 1 + 7) // 8, "little")
+        try:
+            got = pydsdl.serialize(X, {"a": 5, "x": v, "b": True})
+            if got != exp:
+                diff.append(("serialize", repr(v), got.hex(), exp.hex()))
+            back = pydsdl.deserialize(X, got)
+            bx = back["x"]
+            want = struct.unpack(fmt, struct.pack(ufmt, pat))[0]
+            if not ((math.isnan(bx) and math.isnan(want)) or (bx == want and math.copysign(1, bx) == math.copysign(1, want))) or back["a"] != 5 or back["b"] is not True:
+                diff.append(("round trip", repr(v), repr(back), repr(want)))
+        except Exception as ex:
+            diff.append(("exception", repr(v), type(ex).__name__, str(ex)[:100]))
+    r = {"nt": True, "key": "float%d%s" % (n, mode)}
+    if diff:
+        r["bad"] = {"kind": "float-sample", "case": [n, mode], "diff": diff[:5]}
+    return r
+
 def run(ctx):
     ctx.rule = ("TLC enumerates (type, value, header flag): types grown from seven primitives by arrays, structures and "
                 "unions with five sibling kinds (incl. composite, delimited, variable-length), sealed and delimited, to "
@@ -113,12 +165,14 @@ def run(ctx):
                 "deserialize() == canonical value, relaxed forms and omitted defaults give the same bytes, length in the "
                 "real bit_length_set. Non-trivial = encoding longer than one byte; distinct by hash of the case. Integer "
                 "widths 17..64 and all cast modes are sampled with closed-form expectations (not decided by TLC)")
-    ctx.assumptions = ["IEEE-754 value <-> pattern conversion is not decided: floats are opaque patterns with exact values",
+    ctx.assumptions = ["IEEE-754 value <-> pattern conversion is not decided: floats are opaque patterns with exact values; a fixed "
+                       "list of 18-22 values per float type (zeros, extremes, subnormals, infinities, NaN, out-of-range) is sampled against struct.pack",
                        "TLC's evaluation of the specification", "UTF-8 / byte arrays are not in the enumerated universe"]
     cfg = "Wire_values_quick.cfg" if ctx.tier == "quick" else "Wire_values_thorough.cfg"
     c02.run_cfg(ctx, "Wire", cfg, worker, "wire")
     wide = [(n, s, m) for n in list(range(1, 65)) for (s, m) in ((False, "s"), (False, "t"), (True, "s")) if not (s and n < 2)]
     c02.consume(ctx, core.pmap(wide_worker, wide, chunksize=8), "wide")
+    c02.consume(ctx, core.pmap(float_worker, [(n, m) for n in (16, 32, 64) for m in ("s", "t")], procs=6, chunksize=1), "float")
     ctx.sample({"type": "struct{ void3; delimited(extent 16){uint8} }", "value": [0, [7]], "bytes": "000100000007"})
 
 def replay(ctx, rec):
